@@ -72,6 +72,7 @@ const (
 var catalogue = []namedDecl{
 	{pkgAlpha, "alpha", "T", false, false, false, 0, false, true, "type T struct{ N int }"},
 	{pkgAlpha, "alpha", "I", false, true, false, 0, true, true, "type I interface{ M() }"},
+	{pkgAlpha, "alpha", "Val", false, true, false, 0, true, true, "type Val interface{}"},
 	{pkgAlpha, "alpha", "S", false, true, true, 0, false, false, "type S []int"},
 	{pkgAlpha, "alpha", "F", false, true, false, 0, false, false, "type F func(int) error"},
 	{pkgAlpha, "alpha", "M", false, true, false, 0, false, false, "type M map[string]int"},
